@@ -3,6 +3,14 @@
 //! connection, five filler changesets occupy the five processing slots, then every arrival
 //! sequence over a colliding alphabet is offered so the bounded queue overflows; afterwards every
 //! offered changeset is re-offered (as sync does) for at most three rounds.
+//!
+//! Soundness of "never accepted again": the real loop trims its seen-cache on a timer tick whenever
+//! the cache holds more keys than `processing_queue_len`. The tick is disabled here (determinism),
+//! so a stale cache entry is only reported in cases where the trim could never fire: the overload
+//! family runs only cases whose number of distinct (actor, version) keys - the fillers are chunks of
+//! ONE version - does not exceed the queue length. A second family offers changesets to an idle
+//! pipeline (no overload): whatever is suppressed there is suppressed by the duplicate / already-held
+//! checks alone.
 
 use klukai_types::actor::ActorId;
 use klukai_types::api::Statement;
@@ -21,41 +29,71 @@ const SCHEMA: &str = "CREATE TABLE t (id INTEGER PRIMARY KEY NOT NULL, a TEXT NO
 /// symbols of the explored suffix
 #[derive(Clone, Copy, Debug, PartialEq, Eq, Hash, serde::Serialize, serde::Deserialize)]
 enum Sym {
+    /// A's version 1, complete
     A1,
+    /// A's version 2 (four cells) complete, and as four single-seq chunks
     A2,
+    A2a,
+    A2b,
+    A2c,
+    A2d,
+    /// A's version 3, complete
+    A3,
+    /// B's version 1, complete
     B1,
-    B2,
-    /// first / second chunk of A's version 3 (two seqs)
-    A3a,
-    A3b,
-    /// first chunk of B's version 3
-    B3a,
-    /// empty changeset for A's version 4
-    EA,
+    /// empty changesets for A's version 2 (it also travels as full changesets: a relay that saw it
+    /// overwritten declares it empty while the origin's own announcement is still around), for
+    /// versions 1..=2 and for versions 1..=3
+    EA2,
+    EA12,
+    EA13,
 }
-const ALPHABET: [Sym; 8] = [Sym::A1, Sym::A2, Sym::B1, Sym::B2, Sym::A3a, Sym::A3b, Sym::B3a, Sym::EA];
+/// overload family
+const ALPHABET: [Sym; 8] = [Sym::A1, Sym::A2a, Sym::A2b, Sym::A2c, Sym::A2d, Sym::EA2, Sym::EA12, Sym::B1];
+/// idle family
+const IDLE_ALPHABET: [Sym; 7] = [Sym::A1, Sym::A2, Sym::A3, Sym::A2a, Sym::EA2, Sym::EA12, Sym::EA13];
+
+impl Sym {
+    /// the (actor, version) keys the loop's seen-cache uses for this changeset (actor 0 = A, 1 = B)
+    fn keys(self) -> Vec<(u8, u64)> {
+        match self {
+            Sym::A1 => vec![(0, 1)],
+            Sym::A2 | Sym::A2a | Sym::A2b | Sym::A2c | Sym::A2d | Sym::EA2 => vec![(0, 2)],
+            Sym::A3 => vec![(0, 3)],
+            Sym::B1 => vec![(1, 1)],
+            Sym::EA12 => vec![(0, 1), (0, 2)],
+            Sym::EA13 => vec![(0, 1), (0, 2), (0, 3)],
+        }
+    }
+}
 
 struct World {
     tpl: Template,
-    a: Vec<ChangeV1>, // versions 1..=3 of actor A (complete)
+    a: Vec<ChangeV1>, // versions 1..=3 of actor A (complete); version 2 has four cells
     b: Vec<ChangeV1>,
-    fillers: Vec<ChangeV1>, // versions 1..=5 of actor C
+    /// five single-seq chunks of ONE version of actor C (one seen-cache key)
+    fillers: Vec<ChangeV1>,
     actor_a: ActorId,
 }
 
-fn write_versions(idx: usize, n: u64, base: u64) -> Vec<ChangeV1> {
+/// `rows[i]` = number of rows inserted by version i+1 (two cells per row)
+fn write_versions(idx: usize, rows: &[u64], base: u64) -> Vec<ChangeV1> {
     let tpl = Template::build(idx, SCHEMA);
     let s = Scratch::new("ingw");
     let p = tpl.instantiate(&s.path().join("w"));
     let mut w = RtNode::open(&p, NodeOpts::default());
     let mut out = vec![];
-    for i in 1..=n {
-        let id = base + i;
-        let (st, body, bc) = w.run(async |nd| {
-            nd.write(vec![Statement::Simple(format!("INSERT INTO t (id,a,b) VALUES ({id},'a{id}','b{id}')"))], None).await
-        });
+    let mut id = base;
+    for (i, n) in rows.iter().enumerate() {
+        let vals: Vec<String> = (0..*n)
+            .map(|_| {
+                id += 1;
+                format!("({id},'a{id}','b{id}')")
+            })
+            .collect();
+        let (st, body, bc) = w.run(async |nd| nd.write(vec![Statement::Simple(format!("INSERT INTO t (id,a,b) VALUES {}", vals.join(",")))], None).await);
         assert_eq!(st, 200);
-        assert_eq!(body.version, Some(i));
+        assert_eq!(body.version, Some(i as u64 + 1));
         assert_eq!(bc.len(), 1);
         out.push(bc[0].clone());
     }
@@ -72,11 +110,12 @@ fn chunk(c: &ChangeV1, i: u64, j: u64) -> ChangeV1 {
 
 impl World {
     fn new() -> World {
+        let c = write_versions(2, &[3], 300);
         World {
             tpl: Template::build(3, SCHEMA),
-            a: write_versions(0, 3, 100),
-            b: write_versions(1, 3, 200),
-            fillers: write_versions(2, 5, 300),
+            a: write_versions(0, &[1, 2, 1], 100),
+            b: write_versions(1, &[1], 200),
+            fillers: (0..5).map(|q| chunk(&c[0], q, q)).collect(),
             actor_a: site_id(0),
         }
     }
@@ -84,12 +123,15 @@ impl World {
         match s {
             Sym::A1 => self.a[0].clone(),
             Sym::A2 => self.a[1].clone(),
+            Sym::A2a => chunk(&self.a[1], 0, 0),
+            Sym::A2b => chunk(&self.a[1], 1, 1),
+            Sym::A2c => chunk(&self.a[1], 2, 2),
+            Sym::A2d => chunk(&self.a[1], 3, 3),
+            Sym::A3 => self.a[2].clone(),
             Sym::B1 => self.b[0].clone(),
-            Sym::B2 => self.b[1].clone(),
-            Sym::A3a => chunk(&self.a[2], 0, 0),
-            Sym::A3b => chunk(&self.a[2], 1, 1),
-            Sym::B3a => chunk(&self.b[2], 0, 0),
-            Sym::EA => empty(self.actor_a, 4..=4),
+            Sym::EA2 => empty(self.actor_a, 2..=2),
+            Sym::EA12 => empty(self.actor_a, 1..=2),
+            Sym::EA13 => empty(self.actor_a, 1..=3),
         }
     }
 }
@@ -101,6 +143,9 @@ struct Case {
     suffix: Vec<Sym>,
     /// release the database after this many suffix arrivals (usize::MAX: after all)
     release_after: usize,
+    /// idle family: no fillers, the database is never held
+    #[serde(default)]
+    idle: bool,
 }
 
 struct CaseResult {
@@ -153,8 +198,15 @@ async fn held(nd: &Node, c: &ChangeV1) -> bool {
 }
 
 /// is what the node claims about `c` actually stored?
-async fn stored(nd: &Node, c: &ChangeV1) -> bool {
+/// `cleared`: versions an offered empty changeset declares empty - a full changeset of such a
+/// version may legitimately be held without any row of it (applied or buffered) being around.
+async fn stored(nd: &Node, c: &ChangeV1, cleared: &[(klukai_types::actor::ActorId, u64)]) -> bool {
     let c = c.clone();
+    if let Changeset::Full { version, .. } = &c.changeset {
+        if cleared.contains(&(c.actor_id, version.0)) {
+            return true;
+        }
+    }
     nd.read(move |conn| match &c.changeset {
         Changeset::Full { version, changes, seqs, .. } => {
             let applied: i64 = conn
@@ -184,8 +236,9 @@ fn run_case(w: &World, case: &Case) -> CaseResult {
     perf.changes_channel_len = 1;
     let mut node = RtNode::open(&p, NodeOpts { perf, ..Default::default() });
     let suffix: Vec<ChangeV1> = case.suffix.iter().map(|s| w.sym(*s)).collect();
-    let fillers = w.fillers.clone();
+    let fillers = if case.idle { vec![] } else { w.fillers.clone() };
     let release_after = case.release_after;
+    let idle = case.idle;
     node.run(async |nd| {
         // start the real loop on the node's real channel
         let (_t, dummy) = bounded(1, "dummy");
@@ -198,7 +251,7 @@ fn run_case(w: &World, case: &Case) -> CaseResult {
         rebaseline();
         let mut violations = vec![];
         // overload: hold the write connection, fill the five processing slots
-        let mut guard = Some(nd.agent.pool().write_priority().await.unwrap());
+        let mut guard = if idle { None } else { Some(nd.agent.pool().write_priority().await.unwrap()) };
         for f in &fillers {
             offer(nd, f.clone()).await;
         }
@@ -207,6 +260,11 @@ fn run_case(w: &World, case: &Case) -> CaseResult {
                 guard.take();
             }
             offer(nd, c.clone()).await;
+            if idle {
+                // idle pipeline: each offer is processed before the next arrives
+                settle(nd).await;
+                while nd.apply_one().await.is_some() {}
+            }
         }
         guard.take();
         settle(nd).await;
@@ -218,6 +276,14 @@ fn run_case(w: &World, case: &Case) -> CaseResult {
                 offered.push(c.clone());
             }
         }
+        let cleared: Vec<(klukai_types::actor::ActorId, u64)> = offered
+            .iter()
+            .filter_map(|c| match &c.changeset {
+                Changeset::Empty { versions, .. } => Some((versions.start().0..=versions.end().0).map(|v| (c.actor_id, v)).collect::<Vec<_>>()),
+                _ => None,
+            })
+            .flatten()
+            .collect();
         let mut shed = 0;
         for c in &offered {
             let h = held(nd, c).await;
@@ -226,7 +292,7 @@ fn run_case(w: &World, case: &Case) -> CaseResult {
                 if std::env::var("ING_DEBUG").is_ok() {
                     eprintln!("  shed: {} {:?} {:?}", c.actor_id, c.versions(), c.seqs());
                 }
-            } else if !stored(nd, c).await {
+            } else if !stored(nd, c, &cleared).await {
                 violations.push(("C10:claims-to-hold-a-changeset-it-did-not-store".to_string(), json!({"change": format!("{:?} {:?} {:?}", c.actor_id, c.versions(), c.seqs())})));
             }
         }
@@ -253,7 +319,7 @@ fn run_case(w: &World, case: &Case) -> CaseResult {
         for c in &offered {
             if !held(nd, c).await {
                 never.push(format!("{} {:?} {:?}", c.actor_id, c.versions(), c.seqs()));
-            } else if !stored(nd, c).await {
+            } else if !stored(nd, c, &cleared).await {
                 violations.push(("C10:claims-to-hold-a-changeset-it-did-not-store".to_string(), json!({"change": format!("{:?} {:?} {:?}", c.actor_id, c.versions(), c.seqs())})));
             }
         }
@@ -279,29 +345,44 @@ fn main() {
         }
         std::process::exit(if res.violations.is_empty() { 0 } else { 1 });
     }
-    let maxlen = cli.tier.pick(3, 4);
-    let mut suffixes: Vec<Vec<Sym>> = vec![vec![]];
-    let mut cur: Vec<Vec<Sym>> = vec![vec![]];
-    for _ in 0..maxlen {
-        let mut next = vec![];
-        for s in &cur {
-            for a in ALPHABET {
-                let mut t = s.clone();
-                t.push(a);
-                next.push(t);
+    fn seqs_over(alpha: &[Sym], maxlen: usize) -> Vec<Vec<Sym>> {
+        let mut all: Vec<Vec<Sym>> = vec![];
+        let mut cur: Vec<Vec<Sym>> = vec![vec![]];
+        for _ in 0..maxlen {
+            let mut next = vec![];
+            for s in &cur {
+                for a in alpha {
+                    let mut t = s.clone();
+                    t.push(*a);
+                    next.push(t);
+                }
             }
+            all.extend(next.iter().cloned());
+            cur = next;
         }
-        suffixes.extend(next.iter().cloned());
-        cur = next;
+        all
     }
+    let maxlen = cli.tier.pick(4, 5) as usize;
     let deadline = Instant::now() + Duration::from_secs(cli.tier.pick(300, 1500));
-    let configs: Vec<(usize, usize)> = cli.tier.pick(vec![(1, 1), (2, 1)], vec![(1, 1), (2, 1), (3, 1), (1, 2), (2, 2)]);
-    // all cases, shortest suffix first
+    let configs: Vec<(usize, usize)> = cli.tier.pick(vec![(2, 1), (3, 1)], vec![(2, 1), (3, 1), (4, 1), (3, 2)]);
     let mut cases: Vec<Case> = vec![];
-    for suffix in &suffixes {
+    // overload family: only cases in which the seen-cache can never exceed the queue length (one key
+    // for the fillers plus the keys of the suffix), see the soundness note at the top
+    let mut skipped_trim_regime = 0u64;
+    for suffix in seqs_over(&ALPHABET, maxlen) {
+        let mut keys: Vec<(u8, u64)> = suffix.iter().flat_map(|s| s.keys()).collect();
+        keys.sort();
+        keys.dedup();
+        let mut distinct = suffix.clone();
+        distinct.sort_by_key(|s| *s as u8);
+        distinct.dedup();
         for (q, a) in &configs {
-            // the queue can only overflow when the suffix is longer than it
-            if suffix.len() <= *q && !suffix.is_empty() {
+            if 1 + keys.len() > *q {
+                skipped_trim_regime += 1;
+                continue;
+            }
+            // the queue can only overflow when more distinct changesets arrive than it holds
+            if distinct.len() <= *q {
                 continue;
             }
             let mut releases = vec![usize::MAX];
@@ -309,10 +390,16 @@ fn main() {
                 releases.push(suffix.len() - 1);
             }
             for rel in releases {
-                cases.push(Case { queue_len: *q, apply_len: *a, suffix: suffix.clone(), release_after: rel });
+                cases.push(Case { queue_len: *q, apply_len: *a, suffix: suffix.clone(), release_after: rel, idle: false });
             }
         }
     }
+    let overload_cases = cases.len();
+    // idle family: the pipeline is never overloaded
+    for suffix in seqs_over(&IDLE_ALPHABET, cli.tier.pick(3, 4) as usize) {
+        cases.push(Case { queue_len: 3, apply_len: 1, suffix, release_after: usize::MAX, idle: true });
+    }
+    let idle_cases = cases.len() - overload_cases;
     // cases are independent executions (own node, own runtime): a few threads
     let execs_a = std::sync::atomic::AtomicU64::new(0);
     let shed_a = std::sync::atomic::AtomicU64::new(0);
@@ -364,9 +451,12 @@ fn main() {
     if let Some(c) = capped {
         rep.set("cap_hit", c);
     }
-    rep.set("bounds", json!({"fillers": 5, "alphabet": format!("{ALPHABET:?}"), "suffix_len_max": maxlen, "(processing_queue_len, apply_queue_len)": configs,
+    rep.set("overload_cases", overload_cases as u64);
+    rep.set("idle_cases", idle_cases as u64);
+    rep.set("overload_sequences_left_out_because_the_periodic_trim_could_fire", skipped_trim_regime);
+    rep.set("bounds", json!({"fillers": "5 single-seq chunks of one version of a third actor", "alphabet": format!("{ALPHABET:?}"), "idle_alphabet": format!("{IDLE_ALPHABET:?}"), "suffix_len_max": maxlen, "(processing_queue_len, apply_queue_len)": configs,
         "busy_window": "write connection held during fillers and the whole suffix (thorough: also released before the last arrival)", "reoffer_rounds": 3}));
-    rep.assume("apply_queue_timeout is set to one hour so the 10 ms flush tick never fires: which changes are batched, queued or dropped is decided by the loop's own rules, not by timing");
+    rep.assume("apply_queue_timeout is set to one hour so the 10 ms flush tick never fires: which changes are batched, queued or dropped is decided by the loop's own rules, not by timing. The tick's other job, trimming the seen-cache when it holds more keys than processing_queue_len, can never fire in the explored overload cases: they are exactly those whose distinct (actor, version) keys (one for the five filler chunks plus the suffix's) do not exceed the queue length");
     rep.assume("the real handle_changes runs on the node's real tx_changes channel (capacity 1); two self-authored sentinels after each offer tell the harness that the loop has handled it");
     rep.require_nontrivial(20, "a case is non-trivial when at least one offered changeset was shed or suppressed during the overload (not held when the overload ended)");
     rep.finish();
